@@ -3,7 +3,7 @@
    Z / positive / N / nat / byte stay the extracted inductive types.  No Extract Constant. *)
 Require Extraction.
 Require Import ExtrOcamlBasic.
-From PVGen Require Import Gen GenKeep Defaults GenAsync Own.
+From PVGen Require Import Gen GenKeep Defaults GenAsync Own GenAlloc.
 From PVGen Require Import Lit LitSpec LitClass GenSpec ErrSpec.
 
 (* gen-C: the specifications view / viewk / reenc, evaluated by the runner on the tree the runtime's reader finds *)
@@ -14,6 +14,7 @@ Extraction "model.ml"
   b2z z2b
   gen_encode gen_size gen_decode_top gen_decode_keep_top default_of resolve ttype_of_ty
   gen_decode_async_top own_decode_top own_decode_keep_top heap_val owns_heap owns_heap_keep own_message_top bytes_val
+  alloc_decode_top alloc_decode_keep_top alloc_class alloc_a alloc_b gw frame_cost top_const Z.max Z.leb
   default_val_lit lit_value_top well_typed_lit pclass_top class_free_schema lits_typed const_value rust_default
   expected_default proj item_cty erase wf_schema elems_ok
   view viewk reenc read_val write_val flat.
